@@ -423,10 +423,10 @@ def check(ctx):
     m = ctx.model
     to, fr = m.func(ZX + ".Diagram.to_pyzx"), m.func(ZX + ".Diagram.from_pyzx")
     ctx.analysed(ZX + ".Diagram.to_pyzx", ZX + ".Diagram.from_pyzx", ZX + ".Diagram.from_pyzx.move", ZX + ".Diagram.from_pyzx.make_wires_adjacent", ZX + ".Diagram.from_pyzx.node2box")
-    check_conventions(ctx, to, fr)
-    check_to_pyzx(ctx, to)
-    check_move(ctx, fr)
-    check_import(ctx, fr)
+    ctx.attempt(check_conventions, ctx, to, fr)
+    ctx.attempt(check_to_pyzx, ctx, to)
+    ctx.attempt(check_move, ctx, fr)
+    ctx.attempt(check_import, ctx, fr)
     ctx.rule("R17.8", "the swaps from_pyzx routes wires with are the requested permutations (C10, including the zx override of Diagram.swap)")
     ctx.depend("R17.8", "C10", "from_pyzx moves wires with Diagram.swap(k, 1) / swap(1, k): the block of k wires and the single wire are exchanged as requested", mod="discopy.quantum.zx")
     ctx.rule("R17.9", "the generators read by to_pyzx and built by from_pyzx (legs, phase as data, default phase 0) are the ones of C16 R16.5")
